@@ -868,7 +868,7 @@ def main():
         "C09": lambda: check_props("C09", tier, seed, "c09", 2000, 40000, miri_quick=(1, ["--ops", "120"]), miri_thorough=(12, ["--ops", "200"]), floors=[("growths_observed", 1000), ("requests_extending_both_sides", 10)]),
         "C14": lambda: check_props("C14", tier, seed, "c14", 200000, 5000000, miri_quick=(10, []), miri_thorough=(400, [])),
         "C15": lambda: check_props("C15", tier, seed, "c15", 8000, 600000, miri_quick=(2, []), miri_thorough=(80, [])),
-        "C18": lambda: check_props("C18", tier, seed, "c18", 4000, 200000, miri_quick=(3, ["--ops", "60"]), miri_thorough=(40, ["--ops", "100"]), floors=[("drop_audits", 1000), ("by_value_iterations", 100)]),
+        "C18": lambda: check_props("C18", tier, seed, "c18", 4000, 200000, miri_quick=(2, ["--ops", "50"]), miri_thorough=(40, ["--ops", "100"]), floors=[("drop_audits", 1000), ("by_value_iterations", 100)]),
         "C10": lambda: check_diff("C10", tier, seed, quick=(8000, 90), thorough=(160000, 900), sanitize=True),
     }
     if prop not in table:
